@@ -173,3 +173,26 @@ Proof.
   unfold take_code. destruct (n <=? lenZ (filter (fun i => memZ i (map cid T)) avail)) eqn:E; [discriminate|].
   intros _. apply Z.leb_gt in E. exact E.
 Qed.
+
+(* ------------------------------------------------------------------ required policy, end to end *)
+Lemma avail_of_topo o st : incl (avail_of o st) (map cid (o_topo o)).
+Proof.
+  unfold avail_of, available. cbn [fst]. intros x Hx. apply filter_In in Hx. tauto.
+Qed.
+
+(* a CPU set returned by Allocate under a required bind policy really has the shape the policy
+   asks for *)
+Lemma allocate_policy_sound o st rq numa s :
+  NoDup (map cid (o_topo o)) ->
+  allocate_cpuset o st rq numa = Some s -> r_required rq = true ->
+  (r_bind rq = 1 -> uniform_topo (o_topo o) = true -> cores_whole (o_topo o) s)
+  /\ (r_bind rq = 2 -> cores_distinct (o_topo o) s).
+Proof.
+  intros HT H Hreq.
+  destruct (allocate_cpuset_spec o st rq numa s HT H) as [S1 [S2 [_ [_ S5]]]].
+  specialize (S5 Hreq).
+  assert (Hinc : incl s (map cid (o_topo o))) by (intros x Hx; apply (avail_of_topo o st); apply S2; exact Hx).
+  unfold satisfied_policy in S5. split.
+  - intros Hb Hu. rewrite Hb in S5. cbn in S5. apply full_sound; assumption.
+  - intros Hb. rewrite Hb in S5. cbn in S5. apply spread_sound; assumption.
+Qed.
